@@ -564,6 +564,7 @@ func (eng *Engine) verifyFunction(tg target) *funcResult {
 				ob.Clause = e.Expr
 			}
 		}
+		fc.returnObligations(fn, c, rn)
 		for i, a := range args {
 			for j, f := range fc.typeInvOf(ret, a) {
 				fc.oblige(ret, "typeinv", fmt.Sprintf("typeinv-%s%d", names[i], j+1), f, "type invariant re-established at exit", token.NoPos, true)
@@ -584,6 +585,80 @@ func (eng *Engine) verifyFunction(tg target) *funcResult {
 	res.Inlined = sortedKeys(fc.inlinedFns)
 	res.Waived = fc.waivedUsed
 	return res
+}
+
+// returnObligations discharges `return k ensures` clauses: a postcondition of the k-th
+// return statement (source order), over the state and the locals at that return.
+func (fc *fnCtx) returnObligations(fn *ssa.Function, c *Contract, rn []string) {
+	if len(c.Returns) == 0 {
+		return
+	}
+	var poss []token.Pos
+	for _, b := range fn.Blocks {
+		for _, in := range b.Instrs {
+			if r, ok := in.(*ssa.Return); ok && r.Pos().IsValid() {
+				poss = append(poss, r.Pos())
+			}
+		}
+	}
+	sort.Slice(poss, func(i, j int) bool { return poss[i] < poss[j] })
+	for i, rs := range c.Returns {
+		if rs.K < 1 || rs.K > len(poss) {
+			fc.specErrors = append(fc.specErrors, fmt.Sprintf("%s:%d: `return %d ensures` binds to no return statement", strings.TrimPrefix(c.File, fc.eng.repo+"/"), rs.Assert.Line, rs.K))
+			continue
+		}
+		name := fmt.Sprintf("ensures-ret%d-%d", rs.K, i+1)
+		if rs.Assert.Label != "" {
+			name = fmt.Sprintf("ensures-ret%d-%s", rs.K, rs.Assert.Label)
+		}
+		found := false
+		for _, r := range fc.returns {
+			if r.pos != poss[rs.K-1] {
+				continue
+			}
+			found = true
+			r := r
+			env := &SpecEnv{fc: fc, st: r.st, old: fc.entry, vars: map[string]Val{}, bound: map[string]Val{}, pkg: fn.Package(), lets: letsOf(c)}
+			for k, v := range fc.params {
+				env.vars[k] = v
+			}
+			env.ghost = func(name string) (Val, bool) {
+				a := calleeLocal(fn, name)
+				if a == nil {
+					return Val{}, false
+				}
+				et := a.Type().(*types.Pointer).Elem()
+				if v, ok := r.st.cells[a]; ok && v != "" {
+					return Val{T: v, Ty: et}, true
+				}
+				if fc.escaping[a] {
+					return Val{T: fc.readLVal(r.st, &LVal{Kind: lvHeap, Ptr: fc.vals[a].T, Base: et}), Ty: et}, true
+				}
+				return Val{}, false
+			}
+			for j, n := range rn {
+				if j < len(r.vals) {
+					env.vars[n] = r.vals[j]
+					env.vars[fmt.Sprintf("result%d", j)] = r.vals[j]
+				}
+			}
+			if len(r.vals) == 1 {
+				env.vars["result"] = r.vals[0]
+			}
+			g, err := env.goal(rs.Assert.Expr)
+			if err != nil {
+				fc.specError(rs.Assert, err)
+				continue
+			}
+			if ob := fc.oblige(r.st, "ensures", name, g, fmt.Sprintf("postcondition of return statement %d: %s", rs.K, rs.Assert.Text), r.pos, true); ob != nil {
+				ob.Clause = rs.Assert.Expr
+			}
+		}
+		if !found {
+			// the return statement is unreachable under the contract: nothing to prove, but say so
+			fc.noteImprecise("`return %d ensures` binds to a return statement no execution reaches", rs.K)
+		}
+	}
 }
 
 // obligeSat adds a reachability (vacuity) check: the state must be satisfiable.
@@ -771,6 +846,7 @@ func mergeContract(dst, src *Contract) {
 	}
 	dst.Requires = append(dst.Requires, src.Requires...)
 	dst.Ensures = append(dst.Ensures, src.Ensures...)
+	dst.Returns = append(dst.Returns, src.Returns...)
 	dst.Shows = append(dst.Shows, src.Shows...)
 	dst.Modifies = append(dst.Modifies, src.Modifies...)
 	dst.HasMod = dst.HasMod || src.HasMod
